@@ -23,7 +23,7 @@ pub fn prop() -> Prop {
         assumptions: vec![
             "the reference layout reader is written from the rustdoc of ImageRaw and of the two DataOrder types",
         ],
-        subs: vec![Sub::tape("images", 28, 600_000, 30_000_000, images)],
+        subs: vec![Sub::tape("images", 48, 600_000, 30_000_000, images)],
     }
 }
 
@@ -203,12 +203,21 @@ where
     }
     let mut native = NativeT::<C>::new();
     let mut iter_only = IterT::<C>::new();
+    // third target flavour: a driver with a visible window that advances the colour stream with `nth`
+    // over everything it does not show (whole hidden rows in a single call)
+    let win = {
+        let (w, h) = (draw_size.width as i32, draw_size.height as i32);
+        let (x0, y0) = (d.aux_i(5, 0, w.min(40)).abs(), d.aux_i(6, 0, h.min(40)).abs());
+        Rectangle::new(position + Point::new(x0, y0), Size::new(d.aux_u(7, 0, 12), 1 + d.aux_u(4, 0, 12)))
+    };
+    let mut skipping = SkipT::<C> { window: win, map: Map::new() };
     macro_rules! draw_both {
         ($drawable:expr) => {{
             let img = if centered { Image::with_center($drawable, offset) } else { Image::new($drawable, offset) };
             ensure!(img.bounding_box() == Rectangle::new(position, draw_size), "image:bounding_box", "bounding_box() = {:?}, expected {:?}", img.bounding_box(), Rectangle::new(position, draw_size));
             img.draw(&mut native).map_err(|e| Fail { sig: "draw_error".into(), detail: format!("{:?}", e) })?;
             img.draw(&mut iter_only).map_err(|e| Fail { sig: "draw_error".into(), detail: format!("{:?}", e) })?;
+            img.draw(&mut skipping).unwrap();
         }};
     }
     match subs.len() {
@@ -232,6 +241,10 @@ where
     if let Some(df) = diff_maps("documented layout", &expected, "draw() on draw_iter-only target", &iter_only.0.map) {
         return fail(format!("{}:pixels_iter_only", what), df);
     }
+    let expected_win: Map<C> = expected.iter().filter(|(k, _)| win.contains(Point::new(k.0, k.1))).map(|(k, v)| (*k, *v)).collect();
+    if let Some(df) = diff_maps("documented layout restricted to the window", &expected_win, &format!("draw() on a target that skips hidden colours with nth (window {:?})", win), &skipping.map) {
+        return fail(format!("{}:pixels_skipping_target", what), df);
+    }
     for c in &native.0.calls {
         if let Call::FillContiguous(a, colors) = c {
             let want = a.size.width as usize * a.size.height as usize;
@@ -243,4 +256,56 @@ where
     cx.nontrivial((w % ppb != 0 && w > 0 && h > 0) || data_follows);
     cx.count("sub_image_with_data_after_last_row", u64::from(data_follows));
     Ok(())
+}
+
+
+/// A target with a visible window: `fill_contiguous` stores the colours that fall into the window and
+/// advances the stream with `Iterator::nth` over all others (one call per hidden stretch, which may
+/// span several rows), `draw_iter` filters by the window.
+struct SkipT<C> {
+    window: Rectangle,
+    map: Map<C>,
+}
+
+impl<C: PixelColor> embedded_graphics::geometry::Dimensions for SkipT<C> {
+    fn bounding_box(&self) -> Rectangle {
+        BIG_BOX
+    }
+}
+
+impl<C: PixelColor> embedded_graphics::draw_target::DrawTarget for SkipT<C> {
+    type Color = C;
+    type Error = core::convert::Infallible;
+    fn draw_iter<I: IntoIterator<Item = embedded_graphics::Pixel<C>>>(&mut self, pixels: I) -> Result<(), Self::Error> {
+        for embedded_graphics::Pixel(p, c) in pixels {
+            if self.window.contains(p) {
+                self.map.insert((p.x, p.y), c);
+            }
+        }
+        Ok(())
+    }
+    fn fill_contiguous<I: IntoIterator<Item = C>>(&mut self, area: &Rectangle, colors: I) -> Result<(), Self::Error> {
+        let mut it = colors.into_iter();
+        let vis = area.intersection(&self.window);
+        if vis.is_zero_sized() || area.is_zero_sized() {
+            return Ok(());
+        }
+        let w = area.size.width as usize;
+        // index in the row-major stream of the next colour the iterator will yield
+        let mut pos = 0usize;
+        for y in vis.rows() {
+            for x in vis.columns() {
+                let idx = (y - area.top_left.y) as usize * w + (x - area.top_left.x) as usize;
+                let c = if idx > pos { it.nth(idx - pos) } else { it.next() };
+                pos = idx + 1;
+                match c {
+                    Some(c) => {
+                        self.map.insert((x, y), c);
+                    }
+                    None => return Ok(()),
+                }
+            }
+        }
+        Ok(())
+    }
 }
